@@ -87,9 +87,11 @@ Definition pair_ok12 (v1 v2 : var) (b : bool) (o1 : op S1) (i2 : dinstr S2) : Pr
               else coef_ok2 S1 S2 dv1 o v1 l1 /\ coef_ok2 S1 S2 dv2 o v2 l1 /\
                    wf1 S2 o /\ d2arrs_ok S2 o /\ coef2_ok2 o v1 v2 l1 /\ cross_ok S2 o v1 v2 b)
   | DPlain OWait => o1 = @OWait S1
-  | DPlain (OPD p false) => exists p1, o1 = @OPD S1 p1 false /\ p = ev p1 /\
-                                       dv1 p1 = k0 /\ dv2 p1 = k0 /\ dv12 p1 = k0
-  | DPlain _ => False      (* SPOILER / RESET / PD(reset): partials are not propagated by the code *)
+  | DPlain OSpoil => o1 = @OSpoil S1
+  | DPlain OReset => o1 = @OReset S1
+  | DPlain (OPD p r) => exists p1, o1 = @OPD S1 p1 r /\ p = ev p1 /\
+                                   dv1 p1 = k0 /\ dv2 p1 = k0 /\ dv12 p1 = k0   (* the density is a constant *)
+  | DPlain _ => False      (* ScalarOp / MatrixOp / S are differentiable operators: DOp *)
   end.
 
 (* the first-order hypotheses of DiffPoint are contained in it *)
@@ -98,7 +100,7 @@ Proof.
   destruct i2 as [o|o]; cbn [pair_ok12 pair_ok].
   - intros (l1 & E & Hm & Hd & H). exists l1. split; [exact E|split; [exact Hm|split; [exact Hd|]]].
     destruct (is_shift S1 l1); [exact (proj1 H)|exact (proj1 H)].
-  - destruct o as [| | | | |p r|]; auto. destruct r; auto.
+  - destruct o as [| | | | |p r|]; auto.
     intros (p1 & E & Ep & H1 & _). exists p1. auto.
 Qed.
 Lemma pair_ok12_2 v1 v2 b o1 i2 : pair_ok12 v1 v2 b o1 i2 -> pair_ok S1 S2 ev dv2 v2 o1 i2.
@@ -106,7 +108,7 @@ Proof.
   destruct i2 as [o|o]; cbn [pair_ok12 pair_ok].
   - intros (l1 & E & Hm & Hd & H). exists l1. split; [exact E|split; [exact Hm|split; [exact Hd|]]].
     destruct (is_shift S1 l1); [exact (proj1 H)|exact (proj1 (proj2 H))].
-  - destruct o as [| | | | |p r|]; auto. destruct r; auto.
+  - destruct o as [| | | | |p r|]; auto.
     intros (p1 & E & Ep & _ & H2 & _). exists p1. auto.
 Qed.
 
@@ -260,13 +262,51 @@ Proof.
       apply (step12_nonshift v1 v2 n o (LMatrix m m0)); auto.
     + destruct Hc as (Ho1 & Ho2). apply (step12_shift v1 v2 n o s1 ds d nm); auto. apply I1.
   - destruct I1 as (Hs1 & _). destruct I12 as (He12 & Hq & Hw).
-    destruct o as [| | | | |p r|]; try contradiction; [destruct r; [contradiction|]|].
-    + (* PD without reset: only the equilibrium changes, by a constant *)
-      destruct Hi as (p1 & -> & -> & _ & _ & Hdp). unfold inv2p. cbn [d_main d_p2 op_n apply].
-      split; [|split; [exact Hq|exact Hw]].
-      intros k. rewrite (gete_pd S1 _ false _ n k Hs1). destruct (k =? 0); [|apply d12T_t0].
-      unfold dvT; cbn [fp fm fz]. now rewrite Hdp, dv12_0.
-    + subst o1. exact (conj He12 (conj Hq Hw)).
+    unfold inv2p. cbn [d_main d_p2]. unfold map_partials. rewrite alookup_map_values_gen.
+    destruct o as [| | | | |p r|]; try contradiction.
+    + (* SPOILER *)
+      subst o1. cbn [op_n apply apply_partial]. split; [exact He12|split].
+      * destruct (alookup pair_eqb (Pair v1 v2) (d_p2 ds)) as [q|]; cbn [omap opshaped apply_partial apply]; auto.
+        destruct Hq as [Hq1 Hq2]. split; [now apply spoil_shaped|exact Hq2].
+      * intros k. rewrite get_spoil. specialize (Hw k).
+        destruct (alookup pair_eqb (Pair v1 v2) (d_p2 ds)) as [q|]; cbn [omap oget apply_partial apply] in *.
+        -- rewrite get_spoil, Hw. unfold dvT; cbn [fp fm fz]. now rewrite dv12_0.
+        -- unfold dvT in *; cbn [fp fm fz] in *. unfold t0 in *. injection Hw as _ _ H3. now rewrite dv12_0, <- H3.
+    + (* RESET *)
+      subst o1. cbn [op_n apply apply_partial].
+      assert (E : forall k, d12T (if k =? 0 then gete S1 s1 0 else t0) = t0).
+      { intros k. destruct (k =? 0); [apply He12|apply d12T_t0]. }
+      split; [|split].
+      * intros k. rewrite (gete_reset S1 _ n k Hs1). apply E.
+      * destruct (alookup pair_eqb (Pair v1 v2) (d_p2 ds)) as [q|]; cbn [omap opshaped apply_partial apply]; auto.
+        destruct Hq as [Hq1 Hq2]. split; [now apply (reset_shaped S2 q n)|].
+        intros k. rewrite (gete_reset S2 _ n k Hq1). destruct (k =? 0); auto.
+      * intros k. rewrite (get_reset S1 _ n k Hs1), E.
+        destruct (alookup pair_eqb (Pair v1 v2) (d_p2 ds)) as [q|]; cbn [omap oget opshaped apply_partial apply] in *; auto.
+        destruct Hq as [Hq1 Hq2]. rewrite (get_reset S2 _ n k Hq1). destruct (k =? 0); auto.
+    + (* PD: the density is a constant; with reset the second-order partial becomes zero *)
+      destruct Hi as (p1 & -> & -> & _ & _ & Hdp). cbn [op_n apply apply_partial].
+      assert (Ee : forall k, d12T (gete S1 (apply_pd p1 r s1) k) = t0).
+      { intros k. rewrite (gete_pd S1 _ r _ n k Hs1). destruct (k =? 0); [|apply d12T_t0].
+        unfold dvT; cbn [fp fm fz]. now rewrite Hdp, dv12_0. }
+      split; [exact Ee|]. destruct r.
+      * split.
+        -- destruct (alookup pair_eqb (Pair v1 v2) (d_p2 ds)) as [q|]; cbn [omap opshaped apply_partial]; auto.
+           destruct Hq as [[Hq1 Hq3] Hq2]. split; [split; cbn [st equ]; [now rewrite map_length|exact Hq3]|exact Hq2].
+        -- intros k. rewrite (get_pd S1 _ true _ n k Hs1).
+           assert (E : d12T (if k =? 0 then mk3 k0 k0 p1 else t0) = t0).
+           { destruct (k =? 0); [|apply d12T_t0]. unfold dvT; cbn [fp fm fz]. now rewrite Hdp, dv12_0. }
+           rewrite E. destruct (alookup pair_eqb (Pair v1 v2) (d_p2 ds)) as [q|]; cbn [omap oget apply_partial]; auto.
+           unfold Views.get. cbn [st].
+           rewrite (getZ_map_st S2 q (fun _ => t0) k eq_refl). reflexivity.
+      * split.
+        -- destruct (alookup pair_eqb (Pair v1 v2) (d_p2 ds)) as [q|]; cbn [omap opshaped apply_partial]; auto.
+        -- intros k. rewrite (get_pd S1 _ false _ n k Hs1). specialize (Hw k).
+           destruct (alookup pair_eqb (Pair v1 v2) (d_p2 ds)) as [q|]; cbn [omap oget apply_partial] in *; auto.
+    + (* Wait *)
+      subst o1. cbn [op_n apply apply_partial]. split; [exact He12|split].
+      * destruct (alookup pair_eqb (Pair v1 v2) (d_p2 ds)) as [q|]; cbn [omap opshaped apply_partial apply]; auto.
+      * intros k. specialize (Hw k). destruct (alookup pair_eqb (Pair v1 v2) (d_p2 ds)) as [q|]; cbn [omap oget apply_partial apply] in *; auto.
 Qed.
 
 End Point2.
@@ -310,7 +350,7 @@ Proof.
     split; [exact B|split; [exact A|split; [exact C|split; [exact D|split]]]].
     + unfold coef2_ok2 in *. rewrite (Pair_comm v2 v1). exact E2.
     + now apply cross_ok_swap.
-  - destruct o as [| | | | |p r|]; auto. destruct r; auto.
+  - destruct o as [| | | | |p r|]; auto.
     intros (p1 & E & Ep & H1 & H2 & H12). exists p1. auto.
 Qed.
 
